@@ -880,8 +880,13 @@ pub(crate) fn abandoned_receive_case(prop: &str, kind: Kind, seed: u64, rep: &mu
                     std::thread::sleep(Duration::from_micros(*r.pick(&[20u64, 100, 400, 1500])));
                 }
             }
-            // keep the socket open until the receiver is done (it is dropped with the thread's return value)
-            sa
+            // keep the socket open until the receiver is done (it is dropped with the thread's return value) -
+            // or, every other case, hang up right behind the last piece: what was sent is still owed to the receiver
+            if wseed % 2 == 0 {
+                drop(sa);
+                return None;
+            }
+            Some(sa)
         });
         let r = match kind {
             Kind::Smol => {
